@@ -164,6 +164,15 @@ pub fn apply_bytes(buf: &mut Vec<u8>, f: &Fault) -> bool {
             buf[*off..*off + w].copy_from_slice(&bytes[4 - w..]);
             old != buf[*off..*off + w]
         }
+        Fault::Write { off, bytes, .. } => {
+            let end = match off.checked_add(bytes.len()) {
+                Some(e) if e <= buf.len() && !bytes.is_empty() => e,
+                _ => return false,
+            };
+            let changed = buf[*off..end] != bytes[..];
+            buf[*off..end].copy_from_slice(bytes);
+            changed
+        }
         Fault::Truncate { len, .. } => {
             if *len < buf.len() {
                 buf.truncate(*len);
